@@ -1,6 +1,6 @@
 use crate::{
     ConstructorReturnType, InterfaceGenerator, RustFlagsRepr, classify_constructor_return_type,
-    int_repr, to_rust_ident,
+    int_repr, to_rust_ident, to_upper_camel_case,
 };
 use heck::*;
 use std::fmt::Write as _;
@@ -841,7 +841,9 @@ impl Bindgen for FunctionBindgen<'_, '_> {
                 let vec = operands[0].clone();
                 let target = operands[1].clone();
                 let size = self.r#gen.sizes.size(element);
-                self.push_str(&format!("for (i, e) in ({vec}).into_iter().enumerate() {{\n",));
+                self.push_str(&format!(
+                    "for (i, e) in ({vec}).into_iter().enumerate() {{\n",
+                ));
                 self.push_str(&format!(
                     "let base = {target}.add(i * {});\n",
                     size.format(POINTER_SIZE_EXPRESSION)
@@ -996,11 +998,7 @@ impl Bindgen for FunctionBindgen<'_, '_> {
                     FunctionKind::Constructor(ty) => {
                         let return_type =
                             classify_constructor_return_type(resolve, *ty, &func.result);
-                        let ty = resolve.types[*ty]
-                            .name
-                            .as_deref()
-                            .unwrap()
-                            .to_upper_camel_case();
+                        let ty = to_upper_camel_case(resolve.types[*ty].name.as_deref().unwrap());
 
                         match return_type {
                             ConstructorReturnType::Self_ => {
